@@ -5,10 +5,10 @@
 package auth
 
 import (
+	"crypto/rand"
+	"encoding/hex"
 	"sync"
 	"time"
-
-	"github.com/cnotch/ipchub/provider/security"
 )
 
 // Token 用户登录后的Token
@@ -29,15 +29,25 @@ type TokenManager struct {
 func (tm *TokenManager) NewToken(username string) *Token {
 	token := &Token{
 		Username: username,
-		AToken:   security.NewID().MD5(),
+		AToken:   newTokenString(),
 		AExp:     time.Now().Add(time.Hour * time.Duration(2)).Unix(),
-		RToken:   security.NewID().MD5(),
+		RToken:   newTokenString(),
 		RExp:     time.Now().Add(time.Hour * time.Duration(7*24)).Unix(),
 	}
 
 	tm.tokens.Store(token.AToken, token)
 	tm.tokens.Store(token.RToken, token)
 	return token
+}
+
+// newTokenString 生成不可预测的 token 串。
+// 不能用 security.NewID()：它是进程内递增的计数器，RTSP 的会话 ID 等会把它的当前值暴露给未验证的客户端。
+func newTokenString() string {
+	var b [16]byte
+	if _, err := rand.Read(b[:]); err != nil {
+		panic(err) // 系统随机源不可用
+	}
+	return hex.EncodeToString(b[:])
 }
 
 // Refresh 刷新指定的Token
